@@ -75,6 +75,15 @@ def gen_case(rnd, tier: str, i: Any) -> Dict[str, Any]:
         c["files"] = {(fn + ".gz"): tr for fn, tr in c["files"].items()}
     c["kind"] = "overlay"
     c["steps"] = [rnd.choice(["overlay", "overlay", "counters"]) for _ in range(rnd.randint(1, 4))]
+    if rnd.random() < 0.15:
+        # complete events that carry no args object at all (the format allows it; annotations and driver calls have nothing to
+        # say): only counter files are written from such a trace - the overlay marks events through their args (see ASSUMPTIONS)
+        c["steps"] = ["counters"] * rnd.randint(2, 3)
+        for tr in c["files"].values():
+            for e in tr["traceEvents"]:
+                if e.get("ph") == "X" and e.get("args") == {}:
+                    del e["args"]
+        c["argless"] = True
     c["opts"] = [{"only": rnd.random() < 0.4, "all_edges": rnd.random() < 0.5, "show_zero": rnd.random() < 0.3,
                   # what-if before the overlay: one critical span edge made free, critical_path() recomputed on the same graph
                   "whatif": rnd.random() < 0.5} for _ in c["steps"]]
@@ -231,6 +240,8 @@ def run_case(case: Dict[str, Any], ctx: Any) -> core.CaseResult:
                         res.counters["no_counter_series"] += 1
                         continue
                     res.counters["counter_files_checked"] += 1
+                    if case.get("argless"):
+                        res.counters["counter_files_from_traces_with_argless_events"] += 1
                     out = read_any(outp)
                     if check_source_preserved(src_trace["traceEvents"], out["traceEvents"], set(), res, tag):
                         bad = [e for e in out["traceEvents"][len(src_trace["traceEvents"]):] if e.get("ph") != "C"]
